@@ -71,6 +71,7 @@ def run(chk):
     r_expand(chk, prog, m)
     r_functions(chk, prog, m)
     r7(chk, prog, m)
+    r8_sort(chk, prog, m)
     chk.undecided_clauses += [
         "element-wise equality with a list model over operation histories (value-level)",
         "that the comparator defines a strict weak ordering (caller's obligation)",
@@ -317,3 +318,119 @@ def r7(chk, prog, m):
             chk.proven(rid, fname, callee, calls[0].locstr(), "(array, length, %d, comparator)" % ELEM)
         else:
             chk.refuted(rid, fname, callee, f.entry.term.locstr(), "%s is not called with (array, length, sizeof(void*), comparator)" % callee)
+
+
+# ---------------------------------------------------------------------------
+# R8 sort and binary search hand the whole list to the C library
+def r8_sort(chk, prog, m):
+    from itertools import product
+    from .. import pe
+    rid = "C07.R8"
+    chk.rule(rid, "array_list_sort, evaluated on every list of 0..4 elements over three keys with the comparator answered from the "
+                  "keys: it either calls qsort on (the element block, the full length, the element size, the comparator) or returns "
+                  "with the list already in comparator order; array_list_bsearch hands bsearch the same block and full length")
+    names = m.struct_fields("%struct.array_list")
+    chk.require(names and "array" in names and "length" in names, "layout of struct array_list not found")
+    K_ARR, K_LEN = names.index("array"), names.index("length")
+
+    class SortPE(pe.PE):
+        def should_inline(self, g, instr):
+            return g.internal
+
+        def _slot(self, a):
+            if a[0] == "ptr" and a[1] == "data":
+                el, fl = pe.fields_of(a[2])
+                if not fl and isinstance(el, int) and 0 <= el < len(self.keys):
+                    return el
+            return None
+
+        def init_mem(self, state, base, path, t):
+            q = [x for x in path if x != ("i", 0)]
+            if base == "al":
+                k = 0 if not q else (q[0] if isinstance(q[0], int) else None)
+                if k == K_ARR and len(q) <= 1:
+                    return ("ptr", "data", ())
+                if k == K_LEN and len(q) == 1:
+                    return pe.C(len(self.keys))
+                return pe.TOP
+            if base == "data":
+                el, fl = pe.fields_of(path)
+                if not fl and isinstance(el, int) and 0 <= el < len(self.keys):
+                    return ("ptr", "elem%d" % self.keys[el], ())
+            return pe.TOP
+
+        def call_model(self, state, frame, i, args):
+            nm = i.callee
+            if nm in ("qsort", "bsearch"):
+                self.libcalls.append((nm, args))
+                return pe.C(0) if nm == "qsort" else ("ptr", "found", ())
+            if nm is None and len(args) == 2:
+                a, b = self._slot(args[0]), self._slot(args[1])
+                if a is None or b is None:
+                    self.unknown = True
+                    return None
+                ka, kb = self.keys[a], self.keys[b]
+                return pe.C((ka > kb) - (ka < kb))
+            return None
+    n = 0
+    f = m.functions.get("array_list_sort")
+    chk.require(f is not None and not f.is_decl, "array_list_sort not found")
+    chk.touched(f)
+    bad = und = None
+    for ln in range(0, 5):
+        for keys in product((1, 2, 3), repeat=ln):
+            h = SortPE(prog, max_leaves=20, max_steps=20000)
+            h.loop_widen = 1000
+            h.max_visits = 64
+            h.keys, h.libcalls, h.unknown = list(keys), [], False
+            try:
+                leaves = h.run(f, [("ptr", "al", ()), ("ptr", "compar", ())], pe.State())
+            except Exception as e:
+                und = und or "%s: %s" % (list(keys), e)
+                continue
+            n += 1
+            if h.unknown or any(lf.kind != "ret" for lf in leaves) or len(leaves) != 1:
+                und = und or "%s: the evaluation does not end in one return" % (list(keys),)
+                continue
+            qs = [c for c in h.libcalls if c[0] == "qsort"]
+            if qs:
+                a = qs[0][1]
+                ok = len(a) >= 4 and pe._norm_ptr(a[0]) == pe._norm_ptr(("ptr", "data", ())) and a[1] == pe.C(len(keys)) and a[2] == pe.C(8) and \
+                    pe._norm_ptr(a[3]) == pe._norm_ptr(("ptr", "compar", ()))
+                if not ok and bad is None:
+                    bad = "for the list of keys %s qsort is called with (base, count, size) = (%s, %s, %s) instead of the whole list" % (
+                        list(keys), a[0][1] if a[0][0] == "ptr" else a[0], a[1][1] if pe.is_const(a[1]) else "?", a[2][1] if pe.is_const(a[2]) else "?")
+            elif list(keys) != sorted(keys) and bad is None:
+                bad = "the list with keys %s (comparator order would be %s) is returned without being sorted" % (list(keys), sorted(keys))
+    if bad:
+        chk.refuted(rid, f.name, "sort", f.entry.term.locstr(), bad)
+    elif und:
+        chk.undecided(rid, f.name, "sort", f.entry.term.locstr(), und)
+    else:
+        chk.proven(rid, f.name, "sort", f.entry.term.locstr(), "qsort on the whole list (or already ordered) for %d lists" % n)
+    g = m.functions.get("array_list_bsearch")
+    if g is not None and not g.is_decl:
+        chk.touched(g)
+        h = SortPE(prog, max_leaves=20, max_steps=20000)
+        h.keys, h.libcalls, h.unknown = [1, 2, 3], [], False
+        bad = und = None
+        try:
+            leaves = h.run(g, [("ptr", "key", ()), ("ptr", "al", ()), ("ptr", "compar", ())], pe.State())
+            bs = [c for c in h.libcalls if c[0] == "bsearch"]
+            if len(bs) != 1:
+                und = "bsearch is called %d times" % len(bs)
+            else:
+                a = bs[0][1]
+                if not (len(a) >= 5 and pe._norm_ptr(a[1]) == pe._norm_ptr(("ptr", "data", ())) and a[2] == pe.C(3) and a[3] == pe.C(8)):
+                    bad = "bsearch is given (base, count, size) = (%s, %s, %s) for a list of 3 elements" % (
+                        a[1][1] if a[1][0] == "ptr" else a[1], a[2][1] if pe.is_const(a[2]) else "?", a[3][1] if pe.is_const(a[3]) else "?")
+        except Exception as e:
+            und = str(e)
+        n += 1
+        if bad:
+            chk.refuted(rid, g.name, "binary search", g.entry.term.locstr(), bad)
+        elif und:
+            chk.undecided(rid, g.name, "binary search", g.entry.term.locstr(), und)
+        else:
+            chk.proven(rid, g.name, "binary search", g.entry.term.locstr(), "bsearch over the whole list")
+    chk.floor(rid, n, 60, "lists evaluated")
